@@ -122,37 +122,33 @@ Qed.
 Lemma meta_text_back s : match meta_text s with Some x => x | None => [] end = s.
 Proof. destruct s; reflexivity. Qed.
 
-Definition e_bool s := mkelem (Some t_boolean) (Some s) None None None None None.
-Definition e_float s := mkelem (Some t_float) None (Some s) None None None None.
-Definition e_date s := mkelem (Some t_date) None None (Some s) None None None.
-Definition e_string s := mkelem (Some t_string) None None None (Some s) None None.
-Definition e_time s := mkelem (Some t_time) None None None None (Some s) None.
-Definition e_meta t s := mkelem (Some t) None None None None None (meta_text s).
+(* the element writer k leaves for type t with payload s in slot sl *)
+Definition wr (k : setk) (t : str) (sl : slot) (s : str) : elem :=
+  match k with SetMeta => build_meta t s | SetCellValue => build false t sl s | SetET | SetETRaw => build true t sl s end.
+Definition keeps_int (g : getk) : bool := match g with GetMeta => false | _ => true end.
 
-Lemma get_et_float s : not_tf s = true -> get_et (e_float s) = read_number true s.
-Proof. intros H. unfold get_et, get_et_gen, e_float. cbn [vtype a_value]. rewrite (get_attribute_str s H). reflexivity. Qed.
-Lemma get_et_date s : not_tf s = true -> get_et (e_date s) = read_date s.
-Proof. intros H. unfold get_et, get_et_gen, e_date. cbn [vtype a_date]. rewrite (get_attribute_str s H). reflexivity. Qed.
-Lemma get_et_time s : not_tf s = true -> get_et (e_time s) = read_dur s.
-Proof. intros H. unfold get_et, get_et_gen, e_time. cbn [vtype a_time]. rewrite (get_attribute_str s H). reflexivity. Qed.
-Lemma get_et_string s : get_et (e_string s) = Ok (VStr s).
-Proof. reflexivity. Qed.
-Lemma get_cv_float s : get_cellvalue (e_float s) = read_number true s.
-Proof. reflexivity. Qed.
-Lemma get_cv_date s : get_cellvalue (e_date s) = read_date s.
-Proof. reflexivity. Qed.
-Lemma get_cv_time s : get_cellvalue (e_time s) = read_dur s.
-Proof. reflexivity. Qed.
-Lemma get_cv_string s : get_cellvalue (e_string s) = Ok (VStr s).
-Proof. reflexivity. Qed.
-Lemma get_meta_float s : get_meta (e_meta t_float s) = read_number false s.
-Proof. unfold get_meta, e_meta. cbn [vtype etext]. rewrite meta_text_back. reflexivity. Qed.
-Lemma get_meta_date s : get_meta (e_meta t_date s) = read_date s.
-Proof. unfold get_meta, e_meta. cbn [vtype etext]. rewrite meta_text_back. reflexivity. Qed.
-Lemma get_meta_time s : get_meta (e_meta t_time s) = read_dur s.
-Proof. unfold get_meta, e_meta. cbn [vtype etext]. rewrite meta_text_back. reflexivity. Qed.
-Lemma get_meta_string s : get_meta (e_meta t_string s) = Ok (VStr s).
-Proof. unfold get_meta, e_meta. cbn [vtype etext]. rewrite meta_text_back. reflexivity. Qed.
+Lemma get_float k g s : compatible k g = true -> not_tf s = true -> model_get g (wr k t_float SValue s) = read_number (keeps_int g) s.
+Proof.
+  intros Hc H. destruct k, g; try discriminate; unfold model_get, wr, build, build_meta, get_et, get_et_gen, get_cellvalue, get_meta;
+    cbn [vtype a_value etext in_slot]; rewrite ?(get_attribute_str s H), ?meta_text_back; reflexivity.
+Qed.
+Lemma get_date k g s : compatible k g = true -> not_tf s = true -> model_get g (wr k t_date SDate s) = read_date s.
+Proof.
+  intros Hc H. destruct k, g; try discriminate; unfold model_get, wr, build, build_meta, get_et, get_et_gen, get_cellvalue, get_meta;
+    cbn [vtype a_date etext in_slot]; rewrite ?(get_attribute_str s H), ?meta_text_back; reflexivity.
+Qed.
+Lemma get_time k g s : compatible k g = true -> not_tf s = true -> model_get g (wr k t_time STime s) = read_dur s.
+Proof.
+  intros Hc H. destruct k, g; try discriminate; unfold model_get, wr, build, build_meta, get_et, get_et_gen, get_cellvalue, get_meta;
+    cbn [vtype a_time etext in_slot]; rewrite ?(get_attribute_str s H), ?meta_text_back; reflexivity.
+Qed.
+Lemma get_string k g s : compatible k g = true -> model_get g (wr k t_string SString s) = Ok (VStr s).
+Proof.
+  intros Hc. destruct k, g; try discriminate; unfold model_get, wr, build, build_meta, get_et, get_et_gen, get_cellvalue, get_meta;
+    cbn [vtype a_string etext in_slot]; rewrite ?meta_text_back; reflexivity.
+Qed.
+Lemma get_bool k g b : compatible k g = true -> model_get g (wr k t_boolean SBool (bool_encode b)) = Ok (VBool b).
+Proof. intros Hc. destruct k, g; try discriminate; destruct b; reflexivity. Qed.
 
 (* ---- payload texts decode to an equal value *)
 Lemma read_date_of_date y m d : valid_date y m d = true ->
@@ -183,67 +179,37 @@ Theorem roundtrip_lemma s g v : compatible s g = true -> in_domain_for s v = tru
   exists e r, model_set s v = Ok e /\ model_get g e = Ok r /\ same_value v r = true.
 Proof.
   intros Hc Hd. unfold in_domain_for in Hd. apply andb_true_iff in Hd as [Hd Hm].
-  assert (Hnum : forall v, is_num v = true -> in_domain v = true ->
-     exists e r, model_set s v = Ok e /\ model_get g e = Ok r /\ same_value v r = true).
-  { clear v Hd Hm. intros v Hn Hd.
-    destruct (num_text v Hn Hd) as (d & Hnv & Ht). pose proof (dec_of_text_not_tf _ _ Ht) as Hnt.
-    destruct (read_number_same true v _ d Hn Hnv Ht) as (r1 & Hr1 & S1).
-    destruct (read_number_same false v _ d Hn Hnv Ht) as (r2 & Hr2 & S2).
-    destruct s, g; try discriminate.
-    - exists (e_float (py_str_num v)), r1. split; [destruct v; try discriminate; reflexivity|]. split; [|exact S1].
-      unfold model_get. rewrite get_et_float by exact Hnt. exact Hr1.
-    - exists (e_float (py_str_num v)), r1. split; [destruct v; try discriminate; reflexivity|]. split; [|exact S1].
-      unfold model_get. rewrite get_cv_float. exact Hr1.
-    - exists (e_float (py_str_num v)), r1. split; [destruct v; try discriminate; reflexivity|]. split; [|exact S1].
-      unfold model_get. rewrite get_et_float by exact Hnt. exact Hr1.
-    - exists (e_float (py_str_num v)), r1. split; [destruct v; try discriminate; reflexivity|]. split; [|exact S1].
-      unfold model_get. rewrite get_cv_float. exact Hr1.
-    - exists (e_meta t_float (py_str_num v)), r2. split; [destruct v; try discriminate; reflexivity|]. split; [|exact S2].
-      unfold model_get. rewrite get_meta_float. exact Hr2. }
   destruct v.
-  - (* None *) destruct s; [ | | discriminate]; destruct g; try discriminate; do 2 eexists; repeat split; reflexivity.
-  - (* bool *) destruct s, g; try discriminate; destruct b; do 2 eexists; repeat split; reflexivity.
-  - apply Hnum; [reflexivity | exact Hd].
-  - apply Hnum; [reflexivity | exact Hd].
-  - apply Hnum; [reflexivity | exact Hd].
+  - (* None *) destruct s; try discriminate; destruct g; try discriminate; do 2 eexists; repeat split; reflexivity.
+  - (* bool *) exists (wr s t_boolean SBool (bool_encode b)), (VBool b). split; [destruct s; reflexivity|]. split; [now apply get_bool|]. cbn. apply eqb_reflx.
+  - (* int *)
+    destruct (num_text (VInt z) eq_refl Hd) as (d & Hnv & Ht). pose proof (dec_of_text_not_tf _ _ Ht) as Hnt.
+    destruct (read_number_same (keeps_int g) (VInt z) _ d eq_refl Hnv Ht) as (r & Hr & S).
+    exists (wr s t_float SValue (py_str_num (VInt z))), r. split; [destruct s; reflexivity|]. split; [|exact S]. rewrite get_float by assumption. exact Hr.
+  - (* float *)
+    destruct (num_text (VFloat r) eq_refl Hd) as (d & Hnv & Ht). pose proof (dec_of_text_not_tf _ _ Ht) as Hnt.
+    destruct (read_number_same (keeps_int g) (VFloat r) _ d eq_refl Hnv Ht) as (x & Hr & S).
+    exists (wr s t_float SValue (py_str_num (VFloat r))), x. split; [destruct s; reflexivity|]. split; [|exact S]. rewrite get_float by assumption. exact Hr.
+  - (* Decimal *)
+    destruct (num_text (VDec d) eq_refl Hd) as (d' & Hnv & Ht). pose proof (dec_of_text_not_tf _ _ Ht) as Hnt.
+    destruct (read_number_same (keeps_int g) (VDec d) _ d' eq_refl Hnv Ht) as (x & Hr & S).
+    exists (wr s t_float SValue (py_str_num (VDec d))), x. split; [destruct s; reflexivity|]. split; [|exact S]. rewrite get_float by assumption. exact Hr.
   - (* str *)
-    cbn [in_domain] in Hd.
-    assert (Hset1 : set_et (VStr s0) = Ok (e_string s0, Some s0)) by (unfold set_et; cbn [isinstance_bool isinstance_int isinstance_float isinstance_Decimal isinstance_datetime isinstance_date isinstance_str orb]; now rewrite Hd).
-    assert (Hset2 : set_cellvalue (VStr s0) = Ok (e_string s0, Some s0)) by (unfold set_cellvalue; cbn [isinstance_str]; now rewrite Hd).
-    assert (Hset3 : set_meta (VStr s0) = Ok (e_meta t_string s0, Some s0)) by (unfold set_meta, set_meta_gen; cbn [isinstance_bool isinstance_int isinstance_float isinstance_Decimal isinstance_datetime isinstance_date isinstance_str orb]; now rewrite Hd).
-    destruct s, g; try discriminate; unfold model_set, model_get; rewrite ?Hset1, ?Hset2, ?Hset3.
-    + exists (e_string s0), (VStr s0). rewrite get_et_string. repeat split. cbn. apply str_eqb_refl.
-    + exists (e_string s0), (VStr s0). rewrite get_cv_string. repeat split. cbn. apply str_eqb_refl.
-    + exists (e_string s0), (VStr s0). rewrite get_et_string. repeat split. cbn. apply str_eqb_refl.
-    + exists (e_string s0), (VStr s0). rewrite get_cv_string. repeat split. cbn. apply str_eqb_refl.
-    + exists (e_meta t_string s0), (VStr s0). rewrite get_meta_string. repeat split. cbn. apply str_eqb_refl.
+    cbn [in_domain] in Hd. exists (wr s t_string SString s0), (VStr s0). split; [|split; [now apply get_string | cbn; apply str_eqb_refl]].
+    destruct s; unfold model_set, set_et, set_cellvalue, set_meta, set_meta_gen;
+      cbn [isinstance_bool isinstance_int isinstance_float isinstance_Decimal isinstance_datetime isinstance_date isinstance_str orb]; rewrite Hd; reflexivity.
   - (* date *)
     cbn [in_domain] in Hd. destruct (read_date_of_date y m d Hd) as (Hr & Hnt).
-    assert (S : same_value (VDate y m d) (VDateTime (mkdt y m d 0 0 0 0 None)) = true) by (cbn [same_value]; apply dtime_eqb_refl).
-    destruct s, g; try discriminate.
-    + exists (e_date (date_encode y m d)). eexists. split; [reflexivity|]. split; [|exact S]. unfold model_get. rewrite get_et_date by exact Hnt. exact Hr.
-    + exists (e_date (date_encode y m d)). eexists. split; [reflexivity|]. split; [|exact S]. unfold model_get. rewrite get_cv_date. exact Hr.
-    + exists (e_date (date_encode y m d)). eexists. split; [reflexivity|]. split; [|exact S]. unfold model_get. rewrite get_et_date by exact Hnt. exact Hr.
-    + exists (e_date (date_encode y m d)). eexists. split; [reflexivity|]. split; [|exact S]. unfold model_get. rewrite get_cv_date. exact Hr.
-    + exists (e_meta t_date (date_encode y m d)). eexists. split; [reflexivity|]. split; [|exact S]. unfold model_get. rewrite get_meta_date. exact Hr.
+    exists (wr s t_date SDate (date_encode y m d)). eexists. split; [destruct s; reflexivity|]. split; [rewrite get_date by assumption; exact Hr|].
+    cbn [same_value]. apply dtime_eqb_refl.
   - (* datetime *)
     cbn [in_domain] in Hd. destruct (read_date_of_datetime d Hd) as (Hr & Hnt).
-    assert (S : same_value (VDateTime d) (VDateTime d) = true) by (cbn [same_value]; apply dtime_eqb_refl).
-    destruct s, g; try discriminate.
-    + exists (e_date (datetime_encode d)). eexists. split; [reflexivity|]. split; [|exact S]. unfold model_get. rewrite get_et_date by exact Hnt. exact Hr.
-    + exists (e_date (datetime_encode d)). eexists. split; [reflexivity|]. split; [|exact S]. unfold model_get. rewrite get_cv_date. exact Hr.
-    + exists (e_date (datetime_encode d)). eexists. split; [reflexivity|]. split; [|exact S]. unfold model_get. rewrite get_et_date by exact Hnt. exact Hr.
-    + exists (e_date (datetime_encode d)). eexists. split; [reflexivity|]. split; [|exact S]. unfold model_get. rewrite get_cv_date. exact Hr.
-    + exists (e_meta t_date (datetime_encode d)). eexists. split; [reflexivity|]. split; [|exact S]. unfold model_get. rewrite get_meta_date. exact Hr.
+    exists (wr s t_date SDate (datetime_encode d)). eexists. split; [destruct s; reflexivity|]. split; [rewrite get_date by assumption; exact Hr|].
+    cbn [same_value]. apply dtime_eqb_refl.
   - (* timedelta *)
     destruct (read_dur_of_dur us) as (Hr & Hnt).
-    assert (S : same_value (VDur us) (VDur us) = true) by (cbn [same_value]; apply Z.eqb_refl).
-    destruct s, g; try discriminate.
-    + exists (e_time (dur_encode us)). eexists. split; [reflexivity|]. split; [|exact S]. unfold model_get. rewrite get_et_time by exact Hnt. exact Hr.
-    + exists (e_time (dur_encode us)). eexists. split; [reflexivity|]. split; [|exact S]. unfold model_get. rewrite get_cv_time. exact Hr.
-    + exists (e_time (dur_encode us)). eexists. split; [reflexivity|]. split; [|exact S]. unfold model_get. rewrite get_et_time by exact Hnt. exact Hr.
-    + exists (e_time (dur_encode us)). eexists. split; [reflexivity|]. split; [|exact S]. unfold model_get. rewrite get_cv_time. exact Hr.
-    + exists (e_meta t_time (dur_encode us)). eexists. split; [reflexivity|]. split; [|exact S]. unfold model_get. rewrite get_meta_time. exact Hr.
+    exists (wr s t_time STime (dur_encode us)). eexists. split; [destruct s; reflexivity|]. split; [rewrite get_time by assumption; exact Hr|].
+    cbn [same_value]. apply Z.eqb_refl.
   - discriminate.
 Qed.
 
@@ -252,34 +218,76 @@ Theorem lexical_lemma s v e : in_domain_for s v = true -> lexical_claimed v = tr
   elem_lexical (is_meta s) e = true.
 Proof.
   intros Hd Hl. unfold in_domain_for in Hd. apply andb_true_iff in Hd as [Hd Hm].
-  assert (Hnum : forall v, is_num v = true -> in_domain v = true -> decimal_lexical (py_str_num v) = true).
+  assert (Hnum : forall w, is_num w = true -> in_domain w = true -> decimal_lexical (py_str_num w) = true).
   { intros w Hn Hw. destruct (num_text w Hn Hw) as (d & _ & Ht). unfold decimal_lexical. now rewrite Ht. }
-  unfold model_set.
+  assert (Hwr : forall t sl p, (t = t_boolean /\ sl = SBool /\ bool_lexical p = true) \/ (t = t_float /\ sl = SValue /\ decimal_lexical p = true) \/
+                (t = t_date /\ sl = SDate /\ (date_lexical p || datetime_lexical p) = true) \/ (t = t_time /\ sl = STime /\ dur_lexical p = true) \/
+                (t = t_string /\ sl = SString) -> elem_lexical (is_meta s) (wr s t sl p) = true).
+  { intros t sl p H. destruct H as [(-> & -> & H)|[(-> & -> & H)|[(-> & -> & H)|[(-> & -> & H)|(-> & ->)]]]];
+      destruct s; unfold elem_lexical, wr, build, build_meta; cbn [is_meta vtype a_bool a_value a_date a_time a_string etext in_slot];
+      rewrite ?meta_text_back; cbn; rewrite ?H; reflexivity. }
   destruct v.
-  - destruct s; [ | | discriminate]; intros [= <-]; reflexivity.
-  - destruct s; intros [= <-]; destruct b; reflexivity.
-  - pose proof (Hnum (VInt z) eq_refl Hd) as L. destruct s; intros [= <-]; cbn; try rewrite meta_text_back; exact L.
-  - pose proof (Hnum (VFloat r) eq_refl Hd) as L. destruct s; intros [= <-]; cbn; try rewrite meta_text_back; exact L.
-  - pose proof (Hnum (VDec d) eq_refl Hd) as L. destruct s; intros [= <-]; cbn; try rewrite meta_text_back; exact L.
+  - destruct s; try discriminate; intros [= <-]; reflexivity.
+  - assert (Hs : model_set s (VBool b) = Ok (wr s t_boolean SBool (bool_encode b))) by (destruct s; reflexivity). rewrite Hs. intros [= <-].
+    apply Hwr. left. repeat split. destruct b; reflexivity.
+  - assert (Hs : model_set s (VInt z) = Ok (wr s t_float SValue (py_str_num (VInt z)))) by (destruct s; reflexivity). rewrite Hs. intros [= <-].
+    apply Hwr. right; left. repeat split. apply (Hnum (VInt z)); [reflexivity | exact Hd].
+  - assert (Hs : model_set s (VFloat r) = Ok (wr s t_float SValue (py_str_num (VFloat r)))) by (destruct s; reflexivity). rewrite Hs. intros [= <-].
+    apply Hwr. right; left. repeat split. apply (Hnum (VFloat r)); [reflexivity | exact Hd].
+  - assert (Hs : model_set s (VDec d) = Ok (wr s t_float SValue (py_str_num (VDec d)))) by (destruct s; reflexivity). rewrite Hs. intros [= <-].
+    apply Hwr. right; left. repeat split. apply (Hnum (VDec d)); [reflexivity | exact Hd].
   - cbn [in_domain] in Hd.
-    destruct s; [unfold set_et | unfold set_cellvalue | unfold set_meta, set_meta_gen];
-      cbn [isinstance_bool isinstance_int isinstance_float isinstance_Decimal isinstance_datetime isinstance_date isinstance_str orb];
-      rewrite Hd; intros [= <-]; reflexivity.
-  - pose proof (date_lexical_lemma y m d) as L.
-    destruct s; intros [= <-]; cbn [elem_lexical is_meta vtype a_date etext py_date_encode]; try rewrite meta_text_back;
-      change (str_eqb t_date t_boolean) with false; change (str_eqb t_date t_float) with false; change (str_eqb t_date t_date) with true;
-      cbn [opt_lex]; rewrite L; reflexivity.
+    assert (Hs : model_set s (VStr s0) = Ok (wr s t_string SString s0)).
+    { destruct s; unfold model_set, set_et, set_cellvalue, set_meta, set_meta_gen;
+        cbn [isinstance_bool isinstance_int isinstance_float isinstance_Decimal isinstance_datetime isinstance_date isinstance_str orb]; rewrite Hd; reflexivity. }
+    rewrite Hs. intros [= <-].
+    apply Hwr. do 4 right. auto.
+  - assert (Hs : model_set s (VDate y m d) = Ok (wr s t_date SDate (date_encode y m d))) by (destruct s; reflexivity). rewrite Hs. intros [= <-].
+    apply Hwr. do 2 right; left. repeat split. now rewrite date_lexical_lemma.
   - cbn [in_domain] in Hd. assert (Hw : whole_minute (tz d) = true) by (unfold lexical_claimed in Hl; unfold whole_minute; exact Hl).
-    pose proof (datetime_lexical_lemma d Hd Hw) as L.
-    destruct s; intros [= <-]; cbn [elem_lexical is_meta vtype a_date etext py_datetime_encode]; try rewrite meta_text_back;
-      change (str_eqb t_date t_boolean) with false; change (str_eqb t_date t_float) with false; change (str_eqb t_date t_date) with true;
-      cbn [opt_lex]; rewrite L; apply orb_true_r.
-  - pose proof (proj2 (dur_encode_lexical_lemma us)) as L.
-    destruct s; intros [= <-]; cbn [elem_lexical is_meta vtype a_time etext py_dur_encode]; try rewrite meta_text_back;
-      change (str_eqb t_time t_boolean) with false; change (str_eqb t_time t_float) with false; change (str_eqb t_time t_date) with false;
-      change (str_eqb t_time t_time) with true; cbn [opt_lex]; exact L.
+    assert (Hs : model_set s (VDateTime d) = Ok (wr s t_date SDate (datetime_encode d))) by (destruct s; reflexivity). rewrite Hs. intros [= <-].
+    apply Hwr. do 2 right; left. repeat split. rewrite (datetime_lexical_lemma d Hd Hw). apply orb_true_r.
+  - assert (Hs : model_set s (VDur us) = Ok (wr s t_time STime (dur_encode us))) by (destruct s; reflexivity). rewrite Hs. intros [= <-].
+    apply Hwr. do 3 right; left. repeat split. apply dur_encode_lexical_lemma.
   - discriminate.
 Qed.
+
+(* ---- overwriting: the last writer wins *)
+(* elements as the writers leave them: nothing but what a writer writes *)
+Definition written_shape (k : setk) (p : elem) : Prop :=
+  match k with
+  | SetMeta => a_bool p = None /\ a_value p = None /\ a_date p = None /\ a_string p = None /\ a_time p = None /\
+               a_currency p = None /\ x_type p = None /\ x_value p = None /\ others p = []
+  | SetETRaw => etext p = None /\ forallb (fun nv => negb (removed_other (fst nv))) (others p) = true /\ others p = []
+  | _ => True
+  end.
+Lemma set_et_others v e t : set_et v = Ok (e, t) -> others e = [] /\ etext e = None /\ a_currency e = None.
+Proof.
+  unfold set_et. destruct v; cbn; try (intros [= <- _]; auto); try discriminate.
+  destruct (xml_str s); [intros [= <- _]; auto | discriminate].
+Qed.
+Theorem last_writer_wins_lemma k p v : written_shape k p -> model_set_on k (Some p) v = model_set k v.
+Proof.
+  intros Hp. unfold model_set_on, set_on_gen. destruct k; try reflexivity.
+  - (* metadata: type and text are both replaced *)
+    destruct Hp as (H1 & H2 & H3 & H4 & H5 & H6 & H7 & H8 & H9).
+    unfold model_set. destruct (set_meta v) as [[e t]|] eqn:E; [|reflexivity]. rewrite H1, H2, H3, H4, H5, H6, H7, H8, H9.
+    unfold set_meta, set_meta_gen in E.
+    repeat match type of E with (if ?c then _ else _) = _ => destruct c end;
+      try (destruct v; try discriminate; destruct (xml_str _); try discriminate); injection E as <- _; reflexivity.
+  - (* set_value_and_type on the element as it is (repaired removal list) *)
+    destruct Hp as (H1 & _ & H3). unfold model_set. destruct (set_et v) as [[e t]|] eqn:E; [|reflexivity].
+    destruct (set_et_others _ _ _ E) as (O1 & O2 & O3). rewrite H1, H3. cbn [filter].
+    destruct e as [a b c d f g h i j x o]. cbn in *. subst. destruct x; reflexivity.
+Qed.
+Theorem overwrite_roundtrip_lemma k g p v : written_shape k p -> compatible k g = true -> in_domain_for k v = true ->
+  exists e r, model_set_on k (Some p) v = Ok e /\ model_get g e = Ok r /\ same_value v r = true.
+Proof. intros Hp Hc Hd. rewrite last_writer_wins_lemma by exact Hp. now apply roundtrip_lemma. Qed.
+(* pinned removal list (F72): a number overwritten through set_value_and_type leaves its calcext:value behind *)
+Theorem stale_calcext_value_pinned :
+  exists p e, model_set SetETRaw (VFloat [49;46;53]%N) = Ok p /\ model_set_on_pinned SetETRaw (Some p) (VBool true) = Ok e /\
+              x_value e = Some [49;46;53]%N /\ model_set SetETRaw (VBool true) <> Ok e.
+Proof. do 2 eexists. repeat split; try reflexivity. discriminate. Qed.
 
 (* ---- the pinned code: F12 (user-defined metadata tests date before datetime) and F33 (get_attribute on office:string-value) *)
 Definition w_noon : dtime := mkdt 2024 1 1 12 0 0 0 None.
